@@ -52,6 +52,8 @@ type hfKey struct {
 }
 
 type synthState struct {
+	ctors       map[interface{}]*ctorInfo
+	ctorCalls   map[string]*ssa.Call
 	syn         map[synKey]ssa.Value
 	hf          map[hfKey][]Fact
 	hfBusy      map[*ssa.Function]bool
@@ -551,6 +553,7 @@ func (w *World) virtOf(v ssa.Value, h *ssa.Function, hc *ssa.Call) ssa.Value {
 		// mention the helper is already in outer terms)
 		k += "@" + w.key(hc)
 	}
+	k = w.normCtorKey(k)
 	return &virtVal{k: k, t: v.Type(), orig: v, site: hc}
 }
 
@@ -1676,22 +1679,24 @@ type liftedCall struct {
 	fn   *ssa.Function       // the function of interest (or the direct caller when none is reached)
 	at   ssa.CallInstruction // the call site inside fn
 	args []ssa.Value         // the target's arguments in fn's terms
+	orig ssa.CallInstruction // the call of the target this was lifted from
 }
 
 // liftCalls enumerates the calls of target, lifted through unexported forwarding helpers
 // (depth-limited) until a function accepted by stop is reached.
 func (w *World) liftCalls(target *ssa.Function, stop func(*ssa.Function) bool, depth int) []liftedCall {
 	var out []liftedCall
+	var orig ssa.CallInstruction
 	var lift func(cs ssa.CallInstruction, args []ssa.Value, d int)
 	lift = func(cs ssa.CallInstruction, args []ssa.Value, d int) {
 		fn := cs.Parent()
 		if stop(fn) || d <= 0 || fn.Parent() != nil || fn.Object() == nil || fn.Object().Exported() {
-			out = append(out, liftedCall{fn, cs, args})
+			out = append(out, liftedCall{fn, cs, args, orig})
 			return
 		}
 		sites := w.callsTo(fn)
 		if len(sites) == 0 {
-			out = append(out, liftedCall{fn, cs, args})
+			out = append(out, liftedCall{fn, cs, args, orig})
 			return
 		}
 		for _, cs2 := range sites {
@@ -1717,6 +1722,7 @@ func (w *World) liftCalls(target *ssa.Function, stop func(*ssa.Function) bool, d
 		}
 	}
 	for _, cs := range w.callsTo(target) {
+		orig = cs
 		lift(cs, cs.Common().Args, depth)
 	}
 	return out
